@@ -935,6 +935,7 @@ impl DnsService {
 pub mod verif {
     pub use super::bucket::{Clock, GenericTokenBucket};
     pub use super::cache::verif::VerifCache;
+    pub use super::outquery::verif::FORCE_ID;
 
     pub fn parse(buf: &[u8]) -> Result<super::dnspkt::DNSPkt, String> {
         super::parse::PktParser::new(buf).get_dns()
